@@ -1051,7 +1051,27 @@ class Visitor(ast.NodeVisitor):
     ) -> Any:
         """Compile the generator or comprehension from the node and execute the compiled code."""
         # Please see "NOTE ABOUT NAME 🠒 VALUE STACKING".
-        if any(value is PLACEHOLDER for value in self._name_to_value.values()):
+        #
+        # Only the names which the comprehension refers to matter; an unknown value of an unrelated name
+        # (*e.g.*, the target of a named expression in another comprehension) does not prevent the re-computation.
+        names_in_comprehension = {
+            a_node.id
+            for a_node in ast.walk(node)
+            if isinstance(a_node, ast.Name) and isinstance(a_node.ctx, ast.Load)
+        }
+        if sys.version_info >= (3, 8):
+            # The comprehension binds the targets of its named expressions itself.
+            names_in_comprehension -= {
+                a_node.target.id
+                for a_node in ast.walk(node)
+                if isinstance(a_node, ast.NamedExpr)
+                and isinstance(a_node.target, ast.Name)
+            }
+        if any(
+            self._name_to_value.get(name, None) is PLACEHOLDER
+            for name in names_in_comprehension
+        ):
+            self._forget_targets_of_named_expressions(node=node)
             return PLACEHOLDER
 
         args = [
@@ -1107,7 +1127,26 @@ class Visitor(ast.NodeVisitor):
 
         generator_expr_func = module_locals["generator_expr"]
 
-        return generator_expr_func(**self._name_to_value)
+        result = generator_expr_func(**self._name_to_value)
+
+        self._forget_targets_of_named_expressions(node=node)
+
+        return result
+
+    def _forget_targets_of_named_expressions(self, node: ast.AST) -> None:
+        """
+        Mark the targets of the named expressions inside a comprehension as unknown.
+
+        The named expressions inside a comprehension bind their targets in the scope of the lambda. As the
+        comprehension is computed by the compiled code, we can not retrieve these values. The targets must not keep
+        the values they had before (*e.g.*, from a named expression outside of the comprehension).
+        """
+        if sys.version_info >= (3, 8):
+            for a_node in ast.walk(node):
+                if isinstance(a_node, ast.NamedExpr) and isinstance(
+                    a_node.target, ast.Name
+                ):
+                    self._name_to_value[a_node.target.id] = PLACEHOLDER
 
     def _visit_parts_of_comprehension(
         self, parts: List[ast.expr], generators: List[ast.comprehension]
